@@ -1,7 +1,8 @@
-(* Codec correspondence: decode / encode calls observed on the Go implementation,
-   replayed on decode_def / encode_def over the definitions extracted from the
-   current source. *)
-From NV Require Import Lib.Base Codec.Lang Codec.Def Codec.Sem Codec.Dispatch Codec.GenDefs Gen.GenMsgs Gen.GenTypes.
+(* Codec correspondence: decode / encode calls observed on the Go implementation, replayed on the
+   TRANSLITERATED programs under the statement semantics (Codec/Stmt.v: exec_dec / exec_enc), which
+   Codec/StmtProofs.v proves equal to decode_def / encode_def of the extracted definition whenever
+   stmt_ready holds; dispatch cases run the table-driven dispatch model. *)
+From NV Require Import Lib.Base Codec.Lang Codec.Def Codec.Sem Codec.Stmt Codec.Dispatch Codec.GenDefs Gen.GenMsgs Gen.GenTypes.
 From Coq Require Import String.
 Open Scope N_scope.
 
@@ -28,13 +29,15 @@ Definition oie_eqb (a b : option ieval) : bool :=
 
 Definition msgval_eqb (a b : msgval) : bool := eqb_list oie_eqb a b.
 
+Definition find_msg (n : string) : option gmsg := find (fun g => String.eqb (g_name g) n) all_msgs.
+
 Definition case_ok (c : case) : bool :=
   match c with
   | CDec _ n input o =>
-      match find_def n with
+      match find_msg n with
       | None => false
-      | Some d =>
-          match decode_def d input, o with
+      | Some g =>
+          match exec_dec nas_types g input, o with
           | Ok m, DOk m' => msgval_eqb m m'
           | Err, DErr => true
           | Panic, DPanic => true
@@ -42,10 +45,10 @@ Definition case_ok (c : case) : bool :=
           end
       end
   | CEnc _ n m o =>
-      match find_def n with
+      match find_msg n with
       | None => false
-      | Some d =>
-          match encode_def d m, o with
+      | Some g =>
+          match exec_enc nas_types g m, o with
           | Ok b, EOk b' => eqb_bytes b b'
           | Err, EErr => true
           | Panic, EPanic => true
